@@ -126,6 +126,12 @@ func genStream(r *Rng, prop, phase string, knob bool, pEarly, pErr float64) []*S
 	rs.Scribble = genScribble(r)
 	rs.Rich = r.Chance(0.2)
 	rs.Consumer = genConsumer(r)
+	if r.Chance(0.06) {
+		rs.Std = r.Pick(stdReaders)
+		if rs.Fault.Kind == "error" {
+			rs.Std = "bufio.Reader" // the only one that can carry an injected error
+		}
+	}
 	s.Reader = rs
 	if knob {
 		s.Knobs = map[string]int{"chunkSize": chunkKnobs[r.Intn(len(chunkKnobs))]}
@@ -149,6 +155,8 @@ func genStream(r *Rng, prop, phase string, knob bool, pEarly, pErr float64) []*S
 	}
 	return []*Scenario{s}
 }
+
+var stdReaders = []string{"bytes.Buffer", "bytes.Buffer", "bytes.Reader", "strings.Reader", "bufio.Reader", "bufio.Reader"}
 
 var scribbleKinds = []string{"garbage", "newline", "nul", "data"}
 
@@ -481,6 +489,7 @@ func genTotality(r *Rng, phase string) []*Scenario {
 		if r.Chance(0.5) {
 			s.Writer.FailAt = r.Intn(12)
 			s.Writer.Partial = r.Intn(4)
+			s.Writer.Full = r.Chance(0.25)
 		} else {
 			s.Writer.ByteBudget = r.Intn(200)
 		}
@@ -626,6 +635,11 @@ func genSink(r *Rng) []*Scenario {
 			}
 			out = append(out, &Scenario{Property: "C20", Phase: "fail-at", Doc: doc,
 				Writer: &WriterScn{Flavour: fl, FailAt: j, ByteBudget: -1, Partial: (j % 3)}})
+			if fl != "richwriter" && (tierThorough || (j+len(fl))%2 == 0) {
+				// ... and the same failure point with the full count reported
+				out = append(out, &Scenario{Property: "C20", Phase: "fail-at", Doc: doc,
+					Writer: &WriterScn{Flavour: fl, FailAt: j, ByteBudget: -1, Full: true}})
+			}
 		}
 	}
 	for i := 0; i < 4 && len(hw.Buf) > 0; i++ {
@@ -646,7 +660,7 @@ func genSinkInterleaved(r *Rng) []*Scenario {
 			if t.Kind != "format" {
 				*t = TaskScn{Kind: "format"}
 				if r.Chance(0.25) {
-					t.Writer = &WriterScn{Flavour: r.Pick(writerFlavours), FailAt: r.Intn(30), ByteBudget: -1}
+					t.Writer = &WriterScn{Flavour: r.Pick(writerFlavours), FailAt: r.Intn(30), ByteBudget: -1, Full: r.Chance(0.25)}
 				}
 			}
 		}
@@ -910,6 +924,9 @@ func evaluate(s *Scenario, st *runStats) (fail *Failure) {
 			if obs.Fired {
 				if s.Writer.FailAt >= 0 {
 					st.Faults["write_failure_at_index"]++
+					if s.Writer.Full {
+						st.Faults["write_failure_reporting_full_count_with_error"]++
+					}
 				} else {
 					st.Faults["write_failure_byte_budget"]++
 				}
@@ -980,6 +997,12 @@ func streamStats(s *Scenario, obs *streamObs, st *runStats) (nontrivial bool) {
 	if s.Reader.Rich {
 		st.Probes["reader_offers_WriterTo_ByteReader_Len"]++
 	}
+	if s.Reader.Std != "" {
+		st.Probes["reader_is_std_"+s.Reader.Std]++
+		if rd.Reused {
+			st.Faults["caller_reused_reader_storage_after_parse"]++
+		}
+	}
 	if obs.EagerRewrites > 0 {
 		st.Probes["consumer_completed_blocks_between_NextBlock_calls"] += obs.EagerRewrites
 		st.Probes["consumer_schedule_"+s.Reader.Consumer]++
@@ -1038,5 +1061,5 @@ func streamStats(s *Scenario, obs *streamObs, st *runStats) (nontrivial bool) {
 		st.Probes["calls_after_terminal_error"] += len(obs.ExtraErrs)
 	}
 	return dataReads > 1 || rd.EmptyReads > 0 || s.Reader.Fault.Kind == "error" || s.Reader.Fault.Kind == "early-eof" ||
-		rd.DataWithErr > 0 || len(s.Knobs) > 0 || rd.Scribbled > 0 || obs.EagerRewrites > 0
+		rd.DataWithErr > 0 || len(s.Knobs) > 0 || rd.Scribbled > 0 || obs.EagerRewrites > 0 || s.Reader.Std != ""
 }
